@@ -4,7 +4,7 @@
    Two layers, as in the code:
      kmip/services/kmip_client.py  KMIPProxy.<op>      response -> result object | dict | payload | exception
      kmip/pie/client.py            ProxyKmipClient.<op> that    -> returned data | KmipOperationFailure | other exception
-   The model mirrors the code AS IT IS (see ClientProofs.v for the clauses that fail). *)
+   The model mirrors the code AS IT IS (after fix: commits for the missing Result Message, Check and DiscoverVersions). *)
 From PK Require Import Base.Bytes.
 From PKGen Require Import Enums.
 From Coq Require Import ZArith List Bool.
@@ -149,7 +149,7 @@ Inductive pout :=
 | PResult (r : presult)                          (* a kmip.services.results object *)
 | PDict (status : Z) (reason : option Z) (msg : option bytes) (d : attrs)   (* a result dictionary *)
 | PPayload (p : attrs)                           (* send_request_payload: the response payload *)
-| PFail (st rs : Z) (m : bytes)                  (* send_request_payload: kmip.core.exceptions.OperationFailure *)
+| PFail (st rs : Z) (m : option bytes)           (* send_request_payload: kmip.core.exceptions.OperationFailure *)
 | PExc.                                          (* any other exception escapes *)
 
 (* `x = None if payload is None else payload.x` for every listed (result name, payload attribute) *)
@@ -225,11 +225,7 @@ Definition process_item (it : ritem) : pout :=
                                   pr_msg := pr_msg r; pr_fields := query_norm (pr_fields r) |}
         | x => x
         end
-      else if c =? 30 then
-        match ri_payload it with
-        | None => PExc                                    (* payload.protocol_versions on None *)
-        | Some _ => mk_result CDiscoverVersions it [(RProtocolVersions, PProtocolVersions)]
-        end
+      else if c =? 30 then mk_result CDiscoverVersions it [(RProtocolVersions, PProtocolVersions)]
       else PExc                                           (* ValueError: no processor for operation *)
   end.
 
@@ -276,11 +272,7 @@ Definition proxy_dict (o : op) (items : list ritem) : pout :=
   | [] => PExc
   | it :: _ =>
       match ri_payload it with
-      | None =>
-          match o with
-          | OCheck => PExc                                (* `payload.usage_limits_count` outside the `if payload:` *)
-          | _ => PDict (ri_status it) (ri_reason it) (ri_msg it) []
-          end
+      | None => PDict (ri_status it) (ri_reason it) (ri_msg it) []
       | Some p =>
           match copy_fields p (dict_fields o) with
           | Some d =>
@@ -301,9 +293,9 @@ Definition proxy_payload (o : op) (items : list ritem) : pout :=
   match items with
   | [it] =>
       if negb (ri_status it =? SUCCESS) then
-        match ri_reason it, ri_msg it with
-        | Some rs, Some m => PFail (ri_status it) rs m
-        | _, _ => PExc                                    (* None.value *)
+        match ri_reason it with
+        | Some rs => PFail (ri_status it) rs (ri_msg it)  (* the message is optional *)
+        | None => PExc                                    (* None.value *)
         end
       else
         match ri_op it with
@@ -395,9 +387,9 @@ Definition pie_success_result (o : op) (f : attrs) : outcome :=
 
 Definition pie_of_result (o : op) (r : presult) : outcome :=
   if pr_status r =? SUCCESS then pie_success_result o (pr_fields r)
-  else match pr_reason r, pr_msg r with
-       | Some rs, Some m => Raise FPie (pr_status r) rs (Some m)
-       | _, _ => RaiseOther                               (* result.result_reason.value / result.result_message.value on None *)
+  else match pr_reason r with
+       | Some rs => Raise FPie (pr_status r) rs (pr_msg r)   (* _get_result_message: None when absent *)
+       | None => RaiseOther                               (* result.result_reason.value on None *)
        end.
 
 Definition pie_dict_return (o : op) (d : attrs) : val :=
@@ -429,7 +421,7 @@ Definition interpret (o : op) (r : resp) : outcome :=
   | PResult res => pie_of_result o res
   | PDict st rs m d => pie_of_dict o st rs m d
   | PPayload p => pie_of_payload o p
-  | PFail st rs m => Raise FCore st rs (Some m)
+  | PFail st rs m => Raise FCore st rs m
   | PExc => RaiseOther
   end.
 
